@@ -499,7 +499,7 @@ fn run(opts: Opts) -> i32 {
     let t0 = Instant::now();
     let seed = simcore::verif_seed();
     println!("simhint: property=C03 tier={} VERIF_SEED={seed} catalogue={:?}", opts.tier, opts.catalogue);
-    let targets = load_targets(&opts.catalogue, &opts.only, opts.workers, if opts.tier == "thorough" { 800 } else { 160 });
+    let targets = load_targets(&opts.catalogue, &opts.only, opts.workers, if opts.tier == "thorough" { 1000 } else { 320 });
     println!("simhint: {} target functions compiled in {:.1}s", targets.len(), t0.elapsed().as_secs_f64());
     let tier = if opts.tier == "thorough" {
         Tier { input_cap: 48, n_random_inputs: 8, occ_cap: 120, multi_fault_runs: 24, ample_gas: 3_000_000, max_steps_honest: 60_000 }
